@@ -221,7 +221,7 @@ def replay(MIN, SIZE, J, with_close, schedule, label, model_lines=()):
         rep = any((not r) and e != 1 for r, e in zip(detail["refused"], detail["execs"]))
     elif "internal-error" in label:
         rep = bool(detail["accept_errors"])
-    elif "exits-after-close" in label:
+    elif "exits" in label:
         rep = detail["alive_workers"] > 0
     detail["reproduced"] = rep
     return detail
